@@ -57,6 +57,12 @@ CHECKS = {
     "C07": (MC, "4.C07", "explicit-state simulation relation between every run and its re-based twin (mass vs mole fraction, exact rational conversion) over point entry points, curves and their metrics, measurement extraction, non-ideal curves and all 4 process models state by state",
             "Every entry point in the lattice gives the same fluxes, permeances, trajectories, metrics and measurement points for a mass-fraction input and the equivalent mole fraction; process models always report mass fractions.",
             "twins run at precision 1e-10, compared at 2e-7 (1e-10 in vacuum); flux calculations slower than 20000 evaluations are not judged"),
+    "C16": (MC, "4.C16", "explicit-state breadth-first search over histories of fit / find_best_fit / fit_vle calls on shared data with canonical state hashing (caller's data + library singletons, class defaults, module state); invariant after every transition; fresh-interpreter differential oracle per operation; best-of oracle; evaluation-formula lattice",
+            "Every history up to the stated depth leaves the measurements and all library state unchanged (the reachable state graph is one state with self-loops), every operation is bit-identical to the same call made first in a fresh interpreter, find_best_fit never loses against a single fit within the requested orders, fit_vle(None) never against a single method; PervaporationFunction evaluates to the stated formula and scales exactly.",
+            "canonical state as described; best-of checked for explicitly requested orders"),
+    "C17": (MC, "4.C17", "explicit-state breadth-first search over ALL save histories up to the stated depth (3 models x 2 storage modes x 2 harness-owned directory-name answers) on a real directory tree with a stubbed clock, invariant after every transition; exhaustive round-trip lattice for process models, curves, permeance functions and conditions",
+            "No save in any explored history writes into or alters an earlier directory; each creates exactly one directory that loads back equal or raises leaving nothing behind (forced name collisions); load never writes; every round trip agrees to 1e-9 with compositions in mass basis.",
+            "hash(datetime.now()) stubbed by module-attribute assignment; built-in mixtures only"),
 }
 def main():
     checks = []
